@@ -29,9 +29,11 @@ def arm_variant(arm):
     return None
 
 
-def discipline(arm, interp):
+def discipline(arm, interp, tree=None):
     """How does this arm treat scopes?  Returns dict."""
     body = arm["body"]
+    if tree is not None:
+        body = A.delegated_body(tree, body, "output::transform::" if interp == "handle_item" else "variablescope::")
     subs = {}      # variable name -> 'sub' when bound to ScopeRef::sub(..)
     for n in A.walk(body):
         if n.get("s") == "let" and n.get("init") is not None and n["pat"].get("p") == "bind":
@@ -146,12 +148,33 @@ def run(ctx, F):
         ctx.ok("F5-global-routing", "!global -> define_global", None)
     else:
         ctx.fail("F5-global-routing", "!global -> define_global", "Scope::set_variable no longer routes `!global` to define_global")
-    dg = tree.one_method("variablescope::Scope", "define_global")
-    txt = A.show(dg["body"]) + " ".join(A.show(x) for x in A.walk(dg["body"]))
-    if "self.parent" in txt and "define_global" in txt.replace("fn define_global", ""):
-        ctx.ok("F5-global-routing", "define_global ascends parent to the root", None)
+    # define_global writes only into a scope that has no parent, and moves along `.parent` otherwise (as a
+    # recursion or as a loop): decided on the MIR, whatever the spelling
+    dgb = prog.one("<variablescope::Scope>::define_global")
+    from lib import sym as _sym
+    _S = _sym.Sym(prog, inline_depth=0)
+    dom = dgb.dominators()
+    parent_sw = []
+    for bi, blk in enumerate(dgb.blocks):
+        t = blk["term"]
+        if t["k"] == "switch" and t.get("discr_of") and (t.get("of_ty") or "").startswith("std::option::Option") and ".parent" in _sym.show(_sym.strip_transparent(_S.place(dgb, t["discr_of"]))):
+            names = {n: tg for _, tg, n in t["targets"]}
+            none_edge = names.get("None", t["otherwise"] if "Some" in names else None)
+            some_edge = names.get("Some", t["otherwise"] if "None" in names else None)
+            parent_sw.append((bi, none_edge, some_edge))
+    writes = [bi for bi, t in dgb.calls() if (mir.callee_name(t) or "").endswith("BTreeMap<K, V, A>>::insert")]
+    ok_w = bool(writes) and all(any(ne is not None and (ne in dom.get(w, ()) or ne == w) for _, ne, _ in parent_sw) for w in writes)
+    moves = False
+    for sw, ne, se in parent_sw:
+        if se is None:
+            continue
+        reach = dgb.reachable_blocks(se)
+        if sw in reach or any((mir.callee_name(t) or "").endswith("Scope>::define_global") for bi, t in dgb.calls() if bi in reach):
+            moves = True
+    if ok_w and moves:
+        ctx.ok("F5-global-routing", "define_global ascends parent to the root", {"parent_switches": len(parent_sw), "writes": writes})
     else:
-        ctx.fail("F5-global-routing", "define_global ascends parent to the root", "define_global does not recurse on self.parent")
+        ctx.fail("F5-global-routing", "define_global ascends parent to the root", f"define_global writes a variable table outside the `parent is None` edge ({not ok_w}) or never moves to the parent ({not moves}): `!global` must write the root scope", where=dgb.where())
     # does a flag-less assignment ever look at ancestors?
     sv_txt = " ".join(A.show(x) for x in A.walk(sv["body"]))
     ascends = "self.parent" in sv_txt or "get_parent" in sv_txt
@@ -168,7 +191,7 @@ def run(ctx, F):
         for arm in ms[0]["arms"]:
             v = arm_variant(arm)
             if v in CONTROL:
-                t[v] = discipline(arm, name)
+                t[v] = discipline(arm, name, tree)
         tables[name] = t
         ctx.floor(f"{name}: control-flow arms", len(t), 4)
     ctx.units["disciplines"] = tables
